@@ -88,6 +88,9 @@ def mk_stores(cfgs):
     stores = {}
     for name, (b, g, n, d) in cfgs.items():
         s = ATP_Store(budget=b, gtp_budget=g, nadh_reserve=n, max_debt=d, silent=True)
+        # scheduler-aware locks everywhere, also in the sequential reference runs: there a call that
+        # re-acquires a lock it already holds raises HangDetected instead of hanging the check
+        sched.install_locks(s)
         stores[name] = s
     return stores
 
@@ -148,6 +151,7 @@ def sequential_outcomes(cfgs, threads, split, setup=()):
             apply(stores, op)
         sink = ATP_Store(budget=10**6, gtp_budget=10**6, nadh_reserve=10**6, silent=True)
         sink.atp = sink.gtp = sink.nadh = 0
+        sched.install_locks(sink)
         pos = [0] * len(steps)
         rets = [[] for _ in steps]
         pend = {}
@@ -155,7 +159,10 @@ def sequential_outcomes(cfgs, threads, split, setup=()):
             op = steps[tid][pos[tid]]
             pos[tid] += 1
             if op[0] == "xfer_debit":
-                r = stores[op[1]].transfer_to(sink, op[3], ET[op[4]])
+                try:
+                    r = stores[op[1]].transfer_to(sink, op[3], ET[op[4]])
+                except sched.HangDetected as e:
+                    return {("sequential-hang", f"{op}: {e}")}
                 pend[tid] = r
             elif op[0] == "xfer_credit":
                 r = pend.pop(tid)
@@ -163,7 +170,10 @@ def sequential_outcomes(cfgs, threads, split, setup=()):
                     stores[op[2]].regenerate(op[3], ET[op[4]])
                 rets[tid].append(r)
             else:
-                rets[tid].append(apply(stores, op))
+                try:
+                    rets[tid].append(apply(stores, op))
+                except sched.HangDetected as e:
+                    return {("sequential-hang", f"{op}: {e}")}
         outs.add((tuple(tuple(r) for r in rets), final(stores)))
     return outs
 
@@ -175,11 +185,6 @@ def make_factory(name):
         stores = mk_stores(cfgs)
         for op in SETUP.get(name, ()):
             apply(stores, op)
-        for s in stores.values():
-            got = sched.install_locks(s)
-            if got != ["_lock"] and not got:
-                # a store without any lock is itself worth exploring (all lines still preempt)
-                pass
 
         def body(ops):
             def run():
@@ -209,8 +214,12 @@ def judge_factory(name):
         strict = sequential_outcomes(cfgs, threads, split=False, setup=SETUP.get(name, ()))
         split = sequential_outcomes(cfgs, threads, split=True, setup=SETUP.get(name, ()))
 
+    hang = [o for o in strict if o and o[0] == "sequential-hang"]
+
     def judge(ex, outcome):
         v = []
+        if hang:
+            return [(f"call-hangs-sequentially:{name}", f"even without any concurrency: {hang[0][1]}")]
         if ex.deadlock:
             v.append((f"deadlock:{name}", f"deadlock {ex.deadlock}"))
             return v
